@@ -29,7 +29,7 @@ def corrupt(table, v, rng):
             env[i] = rng.choice([2 ** (8 * b[1][1][1]) + 3, -(2 ** (8 * b[1][1][1])) - 1, None, b'x'])
             return ('pkt', c, env)
         if b[0] == 'elem' and b[1][0] == 'leaf' and b[1][1][0] in ('dsized', 'dmarker', 'deos'):
-            env[i] = rng.choice([None, 7])
+            env[i] = rng.choice([None, 7, [], [1, 2]])        # wrong types with and without a length
             return ('pkt', c, env)
         if b[0] == 'seq' and isinstance(x, list):
             if x and isinstance(x[0], tuple) and rng.random() < 0.5:
@@ -244,6 +244,32 @@ def run(tier, seed, rng):
         if begin is not None and begin != off_rep:
             failures.append(dict(kind='oracle', sig='stack-offset-pack', what=f"serializing: PacketError says field {name!r} of {cls} begins at {off_rep}, but after the fields before it (and its positioning) the cursor stands at {begin}",
                                  classes=pktprops.class_source(groups, r['group']), cls=cls, value=decl.py_value(value), observed=oo))
+    # ---- a value of the wrong type that HAS a length (str, tuple, list, bytearray is fine) in every kind of byte-string field, at nesting
+    # depth 0..2: serializing must fail with a PacketError (packing) that names the field, never with a bare TypeError from the buffer
+    wsrc = ("class WSized(Packet):\n    n = Int(1)\n    d = Data(n)\n    t = Int(1)\n"
+            "class WExpr(Packet):\n    n = Int(1)\n    d = Data(n + 1)\n    t = Int(1)\n"
+            "class WCall(Packet):\n    n = Int(1)\n    d = Data(lambda pkt, **k: pkt.n)\n"
+            "class WIncl(Packet):\n    d = Data(until_marker=b';', include_delimiter=True)\n    t = Int(1)\n"
+            "class WMark(Packet):\n    d = Data(until_marker=b';')\n    t = Int(1)\n"
+            "class WRegx(Packet):\n    d = Data(until_marker=re.compile(b'X+'), include_delimiter=True)\n"
+            "class WEos(Packet):\n    t = Int(1)\n    d = Data(until_marker=re.compile(b'$'))\n"
+            "class WFix(Packet):\n    t = Int(1)\n    d = Data(3)\n")
+    wkinds = ['WSized', 'WExpr', 'WCall', 'WIncl', 'WMark', 'WRegx', 'WEos', 'WFix']
+    for k in wkinds:
+        wsrc += f"class In{k}(Packet):\n    h = Int(1)\n    r = Ref({k})\nclass Seq{k}(Packet):\n    c = Int(1)\n    rs = Ref(In{k}).repeated(c)\n"
+    wcases, wmeta = [], []
+    for k in wkinds:
+        for bad in ("'ab'", "''", "['a']", "[]", "(1, 2)", "()", "'ab;'", "'X'"):
+            wcases.append(dict(cls=k, op='pack', value={"py": f"{k}(d={bad})"})); wmeta.append((k, 1, bad))
+            wcases.append(dict(cls='In' + k, op='pack', value={"py": f"In{k}(r={k}(d={bad}))"})); wmeta.append((k, 2, bad))
+            wcases.append(dict(cls='Seq' + k, op='pack', value={"py": f"Seq{k}(c=2, rs=[In{k}(), In{k}(r={k}(d={bad}))])"})); wmeta.append((k, 3, bad))
+    wres = run_impl(os.path.join(VERIF, 'harness', 'impl_pkt.py'), dict(header=decl.HEADER_PY, blocks=[dict(name='wrongtype', src=wsrc)], modname='c12w', cases=wcases))
+    dist['wrong_typed_strings'] = len(wcases)
+    for (k, depth, bad), o, cse in zip(wmeta, wres['outcomes'], wcases):
+        ok = o.get('err') == 'packing' and o.get('str_ok') and len(o['stack']) == depth and (o['stack'][0][1] == 'd' or (k == 'WFix' and o['stack'][0][1] == "between 't' and 'd'")) and o['stack'][0][2] == k
+        if not ok:
+            failures.append(dict(kind='oracle', sig='wrong-typed-string', what=f"serializing {cse['value']['py']} must fail with a PacketError (packing) whose innermost entry names field 'd' of {k} below {depth - 1} enclosing entries; observed {json.dumps(o)[:300]}",
+                                 classes=wsrc, cls=cse['cls'], value=cse['value']['py'], observed=o))
     # ---- rendering never fails, whatever the text of the wrapped error: user callables raising with awkward messages
     msgs = ['100% wrong', '%s %d %(x)s', '%', 'ends with %', '{0} {x} {', '}', 'caf\xe9 \u2603 \U0001f600', 'x' * 5000, 'nul \x00 byte', 'line\nbreak',
             "unsupported operand type(s) for %: 'int' and 'NoneType'", '%%', '%(', '\\', '']
